@@ -528,7 +528,7 @@ Proof. exact blahut_hook_value_lag_refuted_l. Qed.
    which repaired adam_dense.go only.  Stop condition, hook arguments (value included) and the
    evaluation cap hold as for the dense variant; the constraints clause holds for returns by
    stop test and hook stop but NOT at the iteration cap (known finding F-ADAM-GENERIC-CAP). *)
-From ADV Require Import C07.ModelAdamGeneric C07.ProofsAdamGeneric.
+From ADV Require Import Base.Corr C07.ModelAdamGeneric C07.ProofsAdamGeneric.
 Section PropsAdamGeneric.
 Context {A : Type} (NM : Num A).
 Variable F : nat -> query (A := A) -> answer (A := A).
